@@ -1,8 +1,45 @@
 PROPERTY = "C05"
 LEVEL = "proof"
-FUNCTIONS = ["sqfs_super_read"]
-TRUSTED = []
-ASSUMPTIONS = []
+FUNCTIONS = ["sqfs_super_read",
+             "sqfs_meta_reader_seek", "sqfs_meta_reader_read",
+             "sqfs_meta_reader_read_inode", "read_inode_file", "read_inode_file_ext",
+             "read_inode_slink", "read_inode_slink_ext", "read_inode_dir_ext", "set_mode",
+             "sqfs_meta_reader_read_dir_header", "sqfs_meta_reader_read_dir_ent",
+             "sqfs_meta_reader_readdir", "sqfs_readdir_state_init",
+             "sqfs_read_table", "sqfs_id_table_read", "sqfs_frag_table_read",
+             "get_block", "precache_fragment_block", "precache_data_block",
+             "sqfs_data_reader_get_block", "sqfs_data_reader_get_fragment",
+             "sqfs_data_reader_read", "dr_stream_get_buffered_data",
+             "sqfs_data_reader_create_stream",
+             "sqfs_xattr_reader_load", "sqfs_xattr_reader_get_desc",
+             "sqfs_xattr_reader_seek_kv", "sqfs_xattr_reader_read_key",
+             "sqfs_xattr_reader_read_value", "read_value_hdr", "read_key_hdr",
+             "gzip_do_block", "xz_uncomp_block", "lz4_uncomp_block",
+             "zstd_uncomp_block", "lzma_uncomp_block",
+             "would_be_own_parent"]
+TRUSTED = [
+    "sqfs_file_t.read_at contract (harness/C10/rd_env.h): requires a writable buffer of the requested size; delivers arbitrary bytes or any negative error",
+    "sqfs_compressor_t.do_block contract (un-compress): requires readable input / writable output of the given sizes; returns any r <= outsize or negative, writes only out[0..r) - CHECKED for the five in-tree wrappers by the comp_* harnesses against the library contracts below",
+    "zlib inflateReset/inflate, liblzma lzma_stream_buffer_decode / lzma_alone_decoder / lzma_code / lzma_end, libzstd ZSTD_decompress / ZSTD_isError, liblz4 LZ4_decompress_safe: read only the given input, write only the given output capacity, report produced/consumed counts within those, return documented status codes (the libraries themselves are not verified)",
+    "sqfs_meta_reader_t contract (harness/C10/mr_contract.h) for the functions that only use a metadata reader; the real seek/read are verified in meta_seek / meta_read",
+    "sqfs_read_table contract (harness/C05/tbl_env.h) in id_table_read / frag_table_read; the real one is verified in read_table",
+    "sqfs_frag_table_lookup contract in the data reader harnesses; sqfs_meta_reader_create contract in read_table / xattr_load",
+    "CBMC memory model (fresh non-overlapping allocations, every allocation may fail), CBMC library models of strlen / memset on small records, array theory back end (--arrays-uf-always)",
+]
+ASSUMPTIONS = [
+    "leaf functions are verified one by one from arbitrary well-formed object states (wf_super, wf_meta, wf_inode, wf stream state) - each wf predicate is ensured by the harness of the function that produces the object (super, meta_seek/meta_read loop invariant, read_inode, dr_create_stream) and required by the consumers; the composition into rdsquashfs / sqfs2tar / sqfsdiff main() is not verified",
+    "NOT covered: sqfs_dir_reader_* (open_dir, read, get_inode, resolve_path, dcache), dir_iterator.c, fill_dir / sqfs_dir_reader_get_full_hierarchy (only would_be_own_parent, bounded to an ancestor chain of 4), sqfs_tree_node_get_path, sqfs_inode_unpack_dir_index_entry, sqfs_dir_entry_from_inode, sqfs_xattr_reader_read (realloc variant: did not finish in 170 s) and read_all, the bin/ tools",
+    "bounded stand-ins (not counted as proved): read_inode_dir_ext with <= 3 index entries, sqfs_data_reader_read with <= 3 block words, sqfs_data_reader_get_block with index <= 3, xattr id table <= 2 blocks, ancestor chain <= 4",
+    "termination is proved as a decreases clause / unwinding assertion per loop, plus C05.readdir.progress and C05.dr_stream.progress for consumer loops; wall-clock bounds and the recursion depth of the tree walk are not",
+    "payload bytes are tracked through one arbitrary witness position per buffer; short on-disk records (<= 40 / 96 bytes) are fully symbolic",
+    "--conversion-check is disabled in readdir and xattr_kv (signed inode_diff added to an unsigned base on purpose; 16 bit fields widened); everywhere else all of cbmc's bounds / pointer / overflow / conversion / shift checks are on",
+    "the codec libraries and the kernel are outside; Windows branches are preprocessed away",
+]
+EXPLANATION = ("every reader entry point is executed once by cbmc on fully symbolic on-disk bytes "
+               "(image = read_at contract, un-compressor = do_block contract) from an arbitrary "
+               "well-formed object state; memory safety = cbmc's built-in checks plus the "
+               "preconditions of the environment contracts at every call site; the wf predicates "
+               "that connect producers and consumers are named obligations")
 _ENV = {"read_at": "stub_read_at", "do_block": "stub_do_block"}
 _UF = ["--arrays-uf-always"]
 _FP_MR = dict(_ENV, destroy="meta_reader_destroy", copy="meta_reader_copy")
@@ -29,7 +66,7 @@ HARNESSES = [
     dict(name="super", file="super.c", label="proved", timeout=170,
          fp=dict(_ENV), unwindset=["sqfs_super_read.0:21", "memcmp.0:97", "verif_nd_bytes.0:97"]),
     dict(name="meta_seek", file="meta_seek.c", label="proved", timeout=170,
-         fp=_FP_MR, flags=_UF),
+         fp=_FP_MR, flags=_UF, unwindset=["harness.0:5"]),
     dict(name="meta_read", file="meta_read.c", label="proved", timeout=170,
          fp=_FP_MR, flags=_UF, loops=["sqfs_meta_reader_read"], loop_tables=["C10"],
          defines={"MR_CAP": 1048576}),
@@ -97,4 +134,14 @@ HARNESSES = [
              "copy": "xattr_reader_copy"},
          nochecks=["--conversion-check"], malloc_fail=True, flags=_UF,
          unwindset=["strlen.0:12", "sqfs_get_xattr_prefix.0:4"]),
+    # un-compress wrappers against assumed codec library contracts
+    dict(name="comp_zstd", file="comp_zstd.c", label="proved", timeout=170, flags=_UF),
+    dict(name="comp_lz4", file="comp_lz4.c", label="proved", timeout=170, flags=_UF),
+    dict(name="comp_xz", file="comp_xz.c", label="proved", timeout=170, flags=_UF),
+    dict(name="comp_gzip", file="comp_gzip.c", label="proved", timeout=170, flags=_UF),
+    dict(name="comp_lzma", file="comp_lzma.c", label="proved", timeout=170, flags=_UF),
+    dict(name="own_parent", file="own_parent.c", label="bounded(ancestor chain <= 4)",
+         timeout=170,
+         cases=[dict(id="depth%d" % d, defines={"OP_DEPTH": d}, unwind=d + 2,
+                     tier="quick") for d in (0, 1, 4)]),
 ]
